@@ -675,7 +675,7 @@ theorem MapsSpec.inv_block {keys nb m} (s : MapsSpec keys nb m) (k : Nat) (hk : 
 /-- a concrete run: 4 objects, 2 islands, object 1 unconstrained -/
 example : (buildMaps true [1, -1, 0, 1] 2 (some 3)).map
       (fun m => (m.cnt.toList, m.adr.toList, m.fwd.toList, m.inv.toList))
-    = some ([1, 2], [0, 1], [1, 3, 0, 2], [2, 0, 3, 1]) := by decide
+    = some ([1, 2], [0, 1], [1, 3, 0, 2], [2, 0, 3, 1]) := by decide +kernel
 
 /-- the hypotheses of `buildMaps_spec` hold for that instance -/
 example : 0 < 2 ∧ (∀ k ∈ [1, -1, 0, 1], k < ((2 : Nat) : Int) ∧ (true = false → 0 ≤ k)) ∧
@@ -685,9 +685,13 @@ example : 0 < 2 ∧ (∀ k ∈ [1, -1, 0, 1], k < ((2 : Nat) : Int) ∧ (true = 
 /-- same instance without a given base (trees: the base is computed from the last block) -/
 example : (buildMaps true [1, -1, 0, 1] 2 none).map
       (fun m => (m.cnt.toList, m.adr.toList, m.fwd.toList, m.inv.toList))
-    = some ([1, 2], [0, 1], [1, 3, 0, 2], [2, 0, 3, 1]) := by decide
+    = some ([1, 2], [0, 1], [1, 3, 0, 2], [2, 0, 3, 1]) := by decide +kernel
 
 /-- a wrong base is rejected by the miscount check (so `hbase` is necessary) -/
-example : buildMaps true [1, -1, 0, 1] 2 (some 2) = none := by decide
+example : buildMaps true [1, -1, 0, 1] 2 (some 2) = none := by decide +kernel
+
+/-- the general theorem instantiated at the concrete run -/
+example : ∃ m, buildMaps true [1, -1, 0, 1] 2 (some 3) = some m ∧ MapsSpec [1, -1, 0, 1] 2 m :=
+  buildMaps_spec true [1, -1, 0, 1] 2 (some 3) (by decide) (by decide) (by intro b h; cases h; decide)
 
 end MjProof.Island
